@@ -60,7 +60,13 @@ func zapStub(m *Machine, fr *frame, fn *ssa.Function, args []Value) Value {
 		}
 	case "Fatal", "Fatalf", "Fatalw", "Fatalln":
 		if strings.Contains(fn.String(), "Logger") {
-			panic(pathAbort{"exit", "zap Fatal"})
+			msg := "zap Fatal"
+			if len(args) > 1 {
+				if s, ok := args[1].(Str); ok && s.IsConc() {
+					msg = "zap Fatal: " + s.s
+				}
+			}
+			panic(pathAbort{"exit", msg})
 		}
 	case "With", "Named", "WithOptions", "Sugar", "Desugar":
 		if fn.Signature.Recv() != nil && len(args) > 0 {
@@ -243,6 +249,24 @@ func init() {
 		},
 		"vThorough": func(m *Machine, fr *frame, fn *ssa.Function, args []Value) Value {
 			return mkBool(m.eng.cfg.Thorough)
+		},
+		"vOnExit": func(m *Machine, fr *frame, fn *ssa.Function, args []Value) Value {
+			m.exitChecks = append(m.exitChecks, exitCheck{id: strArg(args[0]), flag: args[1].(*Value), allowed: strings.Split(strArg(args[2]), "|")})
+			return nil
+		},
+		"vSignal": func(m *Machine, fr *frame, fn *ssa.Function, args []Value) Value {
+			// vSignal(k): the environment delivers the k-th signal passed to signal.Notify; k<0: none
+			k := args[0].(*Term)
+			if k.IsConst() && k.iv.Sign() < 0 {
+				m.ghost["nosignal"] = tTrue
+			} else {
+				m.ghost["signal"] = k
+			}
+			return nil
+		},
+		"vFreezeClock": func(m *Machine, fr *frame, fn *ssa.Function, args []Value) Value {
+			m.ghost["frozenclock"] = tTrue
+			return nil
 		},
 		"vPoisoned": func(m *Machine, fr *frame, fn *ssa.Function, args []Value) Value {
 			_, ok := m.ghost["poison"]
@@ -1291,6 +1315,31 @@ func registerMisc() {
 		obj := new(Value)
 		*obj = structV{Str{s: "open: file system is outside the model"}}
 		return tuple{(*Value)(nil), Iface{T: types.NewPointer(errPkg.Type("errorString").Type()), V: obj}}
+	}
+	// os/signal.Notify: an environment thread may deliver the first listed signal at any
+	// scheduling point (or never)
+	I["os/signal.Notify"] = func(m *Machine, fr *frame, fn *ssa.Function, a []Value) Value {
+		ch := a[0].(*ChanV)
+		sigs := a[1].(sliceV)
+		if sigs.len == 0 {
+			return nil
+		}
+		which := *sigs.at(0)
+		if sel, ok := m.ghost["signal"].(*Term); ok && sel.IsConst() && int(sel.Int64()) < sigs.len {
+			which = *sigs.at(int(sel.Int64()))
+		}
+		t := &nativeFn{name: "signal-env", f: func(m *Machine, fr *frame, _ []Value) Value {
+			m.visible("signal")
+			if len(ch.buf) < ch.cap || len(m.peerOffers(ch, false)) > 0 {
+				m.doSend(ch, which)
+			}
+			return nil
+		}}
+		if nosig, ok := m.ghost["nosignal"].(*Term); ok && nosig.IsConst() && nosig.bv {
+			return nil
+		}
+		m.spawnNative("signal", t)
+		return nil
 	}
 	I["os.Exit"] = func(m *Machine, fr *frame, fn *ssa.Function, a []Value) Value {
 		panic(pathAbort{"exit", "os.Exit"})
